@@ -321,8 +321,10 @@ static Plan gen_plan(uint64_t seed, int min_clients)
 // schedules: a list of segments; the calls of one segment are in flight together (one per client)
 static const uint8_t SW_START = 255;
 static const uint32_t SW_AT_END = 0xffffffffu;
+static const uint8_t SW_NEST = 254;      // Switch.to: not a hand-off - deliver a "signal" to `from` here: its handler makes the segment's next nested call on from's own thread
 struct Switch { uint8_t from; uint32_t idx; uint8_t to; };   // from = SW_START: who runs first; idx = SW_AT_END: when from's call returns
-struct Segment { std::vector<int> items; std::vector<Switch> script; unsigned den; int budget; std::vector<uint8_t> respawn; std::vector<uint64_t> focus; char phase = 'm'; };   // phase: e = before the library's initialisers, m = main, l = after its destructors
+struct Segment { std::vector<int> items; std::vector<Switch> script; unsigned den; int budget; std::vector<uint8_t> respawn; std::vector<uint64_t> focus; char phase = 'm';
+                 std::vector<int> nested; int nest_host = -1; unsigned nest_den = 0; };   // nested: calls made from a simulated signal handler that interrupts nest_host's call (same thread; DESIGN 9.8)   // phase: e = before the library's initialisers, m = main, l = after its destructors
 struct Schedule { int clients; std::vector<Item> items; std::vector<Segment> segs; bool log_access = false; int clock_policy = 0; uint64_t clock_seed = 0; };
 
 using Respawns = std::vector<std::pair<uint32_t, uint8_t>>;      // (before the segment that holds item #first, restart client #second)
@@ -365,6 +367,26 @@ static Schedule fine_schedule(const Plan & p, uint64_t sched_seed)
     s.segs.push_back(g);
     i = j;
     }
+  // same-thread re-entrancy (DESIGN 9.8): some calls are interrupted by a simulated signal whose handler asks the library
+  // another question on the same thread.  Drawn from a generator of its own, and the nested question is a *copy* of a plan
+  // item, so the grouping and every preemption decision above are what they would be without it.
+  Rng rn(sched_seed ^ 0x510e527fade682d1ull);
+  static const unsigned nden[] = {1, 2, 3, 4, 8, 16};
+  for (Segment & g : s.segs)
+    {
+    if (!rn.chance(25)) continue;
+    int host = g.items[rn.below(g.items.size())];
+    int src = -1;
+    if (rn.chance(70))
+      {   // prefer a different question to the same operation (what a per-thread memo or scratch buffer of that function gets wrong)
+      int cand[16], nc = 0;
+      for (size_t q = 0; q < n && nc < 16; ++q) if (p.items[q].op == p.items[host].op && (p.items[q].a != p.items[host].a || p.items[q].b != p.items[host].b)) cand[nc++] = static_cast<int>(q);
+      if (nc) src = cand[rn.below(static_cast<uint64_t>(nc))];
+      }
+    if (src < 0) src = static_cast<int>(rn.below(n));
+    s.items.push_back(p.items[src]); s.items.back().client = p.items[host].client; s.items.back().fail_alloc = 0;
+    g.nested.push_back(static_cast<int>(s.items.size() - 1)); g.nest_host = p.items[host].client; g.nest_den = nden[rn.below(6)];
+    }
   return s;
   }
 
@@ -382,6 +404,7 @@ static thread_local bool tl_in_call = false;
 static thread_local uintptr_t tl_stack_lo = 0, tl_stack_hi = 0;
 static thread_local uint32_t tl_yield_idx = 0;
 static thread_local int tl_item = -1;
+static thread_local bool tl_nested = false;          // inside a call made from the simulated signal handler
 static bool g_log_access = false;
 static std::vector<AccessRec> g_access;
 static const size_t ACCESS_PER_CALL = 96, ACCESS_TOTAL = 400000;
@@ -501,6 +524,21 @@ static struct
   uint64_t yields = 0, switches = 0;
   } g_fine;
 
+static struct { const std::vector<int> * items = nullptr; size_t next = 0; int host = -1; unsigned den = 0; Rng rng; } g_nest;
+static std::vector<Res> * g_out = nullptr;
+static uint64_t g_nests_fired = 0;
+static void run_nested(int item_index);
+static bool script_lookup_nest(uint8_t from, uint32_t idx)
+  {
+  if (!g_fine.script) return false;
+  for (size_t k = 0; k < g_fine.script->size(); ++k)
+    {
+    const Switch & w = (*g_fine.script)[k];
+    if (!g_fine.used[k] && w.to == SW_NEST && w.from == from && w.idx == idx) { g_fine.used[k] = 1; return true; }
+    }
+  return false;
+  }
+
 static int pick_runnable(int me, bool random_pick)
   {
   int cand[96], n = 0;
@@ -515,7 +553,7 @@ static int script_lookup(uint8_t from, uint32_t idx)
   for (size_t k = 0; k < g_fine.script->size(); ++k)
     {
     const Switch & w = (*g_fine.script)[k];
-    if (!g_fine.used[k] && w.from == from && w.idx == idx) { g_fine.used[k] = 1; return w.to; }
+    if (!g_fine.used[k] && w.to != SW_NEST && w.from == from && w.idx == idx) { g_fine.used[k] = 1; return w.to; }
     }
   return -1;
   }
@@ -548,10 +586,24 @@ static void hsim_yield_impl(const void * addr, int is_write)
     for (size_t k = tl_access_begin; k < g_access.size() && !seen; ++k) seen = g_access[k].addr == a && g_access[k].is_write == static_cast<uint32_t>(is_write);
     if (!seen) g_access.push_back(AccessRec{static_cast<uint32_t>(tl_item), static_cast<uint32_t>(is_write), a});
     }
-  if (!g_fine.active) return;
+  if (tl_nested) return;                                       // the handler's own call is not interrupted again
   uint32_t idx = tl_yield_idx++;
-  ++g_fine.yields;
   int me = tl_client, target = -1;
+  if (g_nest.items && g_nest.next < g_nest.items->size() && me == g_nest.host)
+    {   // deliver the simulated signal here?
+    bool fire;
+    if (g_fine.scripted) fire = script_lookup_nest(static_cast<uint8_t>(me), idx);
+    else
+      {
+      bool hot = false;
+      if (g_fine.focus) for (uint64_t f : *g_fine.focus) if (f == a) hot = true;
+      fire = hot ? g_nest.rng.below(2) == 0 : (g_nest.den && g_nest.rng.below(g_nest.den) == 0);
+      if (fire) g_fine.trace.push_back(TraceRec{g_fine.seg_index, static_cast<uint32_t>(me), idx, SW_NEST});
+      }
+    if (fire) run_nested((*g_nest.items)[g_nest.next++]);
+    }
+  if (!g_fine.active) return;
+  ++g_fine.yields;
   if (g_fine.scripted) target = script_lookup(static_cast<uint8_t>(me), idx);
   else if (g_fine.budget > 0 || g_fine.den == 1)
     {
@@ -575,6 +627,7 @@ extern "C" void hsim_wait_until(int (*pred)(void *), void * arg)
   {
   struct Guard { bool prev; Guard() : prev(tl_in_harness) { tl_in_harness = true; } ~Guard() { tl_in_harness = prev; } } guard;
   int me = tl_client;
+  if (tl_nested) { if (pred(arg)) return; _exit(6); }           // a handler waiting for what (possibly) its own interrupted thread holds: not a value, not a hang of ours
   if (!g_fine.active) { if (pred(arg)) return; _exit(5); }    // alone in the library and still blocked: self-deadlock
   for (int spins = 0; !pred(arg); ++spins)
     {
@@ -600,6 +653,20 @@ static Res call_once(const Item & it)
   return r;
   }
 
+// the simulated signal handler: one more library call, on the interrupted caller's own thread, in the middle of its call
+static void run_nested(int item_index)
+  {
+  sigjmp_buf saved_env; std::memcpy(&saved_env, &tl_env, sizeof saved_env);
+  uint32_t yi = tl_yield_idx; int titem = tl_item; size_t ab = tl_access_begin; int32_t as = tl_alloc_seen, af = tl_alloc_fail_at;
+  ++g_nests_fired;
+  tl_nested = true; tl_in_harness = false;
+  Res r = call_once(g_items_base[item_index]);
+  tl_in_harness = true; tl_nested = false;
+  std::memcpy(&tl_env, &saved_env, sizeof saved_env);
+  tl_armed = 1; tl_in_call = true; tl_yield_idx = yi; tl_item = titem; tl_access_begin = ab; tl_alloc_seen = as; tl_alloc_fail_at = af;
+  if (g_out) (*g_out)[static_cast<size_t>(item_index)] = r;
+  }
+
 static void * client_main(void * p)
   {
   ClientSlot * s = static_cast<ClientSlot *>(p);
@@ -607,6 +674,10 @@ static void * client_main(void * p)
   pthread_attr_t at; void * sa = nullptr; size_t ss = 0;
   if (pthread_getattr_np(pthread_self(), &at) == 0) { pthread_attr_getstack(&at, &sa, &ss); pthread_attr_destroy(&at); }
   tl_stack_lo = reinterpret_cast<uintptr_t>(sa); tl_stack_hi = tl_stack_lo + ss;
+  // glibc places the thread's static TLS block and its descriptor at the top of the same mapping: everything above this
+  // frame is not call stack.  thread_local state of the library must be a yield point (it is shared with a signal
+  // handler running on this thread, DESIGN 9.8), so the private range ends here.
+  { volatile char frame_marker = 0; uintptr_t top = reinterpret_cast<uintptr_t>(&frame_marker) + 64; if (top > tl_stack_lo && top < tl_stack_hi) tl_stack_hi = top; }
   for (;;)
     {
     while (sem_wait(&s->go) != 0 && errno == EINTR) {}
@@ -661,6 +732,7 @@ static void write_all(int fd, const void * p, size_t n)
   g_sim_now_ns = SIM_EPOCH_NS; g_sim_elapsed_ns = 0; g_clock_policy = sc.clock_policy; g_clock_rng = Rng(sc.clock_seed ^ 0x1f83d9abfb41bd6bull);
   g_fine.nclients = sc.clients; g_fine.scripted = scripted; g_fine.rng = Rng(sched_seed ^ 0x9e3779b97f4a7c15ull);
   std::vector<Res> out(sc.items.size(), Res{255, 0, 0});
+  g_out = &out; g_nest.rng = Rng(sched_seed ^ 0x9b05688c2b3e6c1full);
   for (size_t si = 0; si < sc.segs.size(); ++si)
     {
     const Segment & g = sc.segs[si];
@@ -674,6 +746,8 @@ static void write_all(int fd, const void * p, size_t n)
         }
     if (g.items.empty()) continue;
     g_fine.seg_index = static_cast<uint32_t>(si);
+    g_nest.items = g.nested.empty() ? nullptr : &g.nested; g_nest.next = 0; g_nest.host = g.nest_host; g_nest.den = g.nest_den;
+    g_fine.script = &g.script; g_fine.focus = g.focus.empty() ? nullptr : &g.focus; g_fine.used.assign(g.script.size(), 0);
     if (g.items.size() == 1)
       {
       g_fine.active = false;
@@ -705,7 +779,7 @@ static void write_all(int fd, const void * p, size_t n)
     g_fine.active = false;
     for (int k : g.items) out[k] = g_slots[sc.items[k].client].res;
     }
-  uint64_t hdr[9] = {g_fine.trace.size(), g_fine.yields, g_fine.switches, g_threads_started, g_access.size(), g_alloc_in_calls, g_alloc_failed, g_clock_queries, g_sim_elapsed_ns};
+  uint64_t hdr[10] = {g_fine.trace.size(), g_fine.yields, g_fine.switches, g_threads_started, g_access.size(), g_alloc_in_calls, g_alloc_failed, g_clock_queries, g_sim_elapsed_ns, g_nests_fired};
   write_all(fd, out.data(), out.size() * sizeof(Res));
   write_all(fd, hdr, sizeof hdr);
   if (!g_fine.trace.empty()) write_all(fd, g_fine.trace.data(), g_fine.trace.size() * sizeof(TraceRec));
@@ -715,7 +789,7 @@ static void write_all(int fd, const void * p, size_t n)
 
 // ---------------------------------------------------------------------------------------------
 // zygote side
-static uint64_t g_resource_failures = 0;
+static uint64_t g_resource_failures = 0, g_nests_total = 0, g_nest_deadlocks = 0;
 static uint64_t g_allocs_total = 0, g_alloc_failures_total = 0, g_clock_queries_total = 0, g_sim_ns_total = 0;
 static uint64_t g_forks = 0, g_hung = 0, g_yields_total = 0, g_switches_total = 0, g_threads_total = 0, g_threads_max = 0;
 struct Outcome { std::vector<Res> res; std::vector<TraceRec> trace; std::vector<AccessRec> access; bool complete; uint64_t allocs = 0, alloc_failures = 0; };
@@ -748,7 +822,7 @@ static Outcome run_schedule(const Schedule & sc, bool scripted, uint64_t sched_s
   if (pid == 0) { close(pf[0]); child_execute(sc, scripted, sched_seed, pf[1]); }
   close(pf[1]);
   Outcome o; o.res.assign(sc.items.size(), Res{255, 0, 0}); o.complete = false;
-  uint64_t hdr[9] = {0, 0, 0, 0, 0, 0, 0, 0, 0};
+  uint64_t hdr[10] = {0, 0, 0, 0, 0, 0, 0, 0, 0, 0};
   const int limit_ms = 20000 + static_cast<int>(sc.items.size() / 4);        // a wall-clock guard only; scales with the schedule
   if (read_all(pf[0], o.res.data(), o.res.size() * sizeof(Res), limit_ms) && read_all(pf[0], hdr, sizeof hdr, limit_ms))
     {
@@ -756,7 +830,7 @@ static Outcome run_schedule(const Schedule & sc, bool scripted, uint64_t sched_s
     o.access.resize(hdr[4]);
     if ((hdr[0] == 0 || read_all(pf[0], o.trace.data(), hdr[0] * sizeof(TraceRec), limit_ms)) &&
         (hdr[4] == 0 || read_all(pf[0], o.access.data(), hdr[4] * sizeof(AccessRec), limit_ms))) o.complete = true;
-    g_clock_queries_total += hdr[7]; g_sim_ns_total += hdr[8];
+    g_clock_queries_total += hdr[7]; g_sim_ns_total += hdr[8]; g_nests_total += hdr[9];
     o.allocs = hdr[5]; o.alloc_failures = hdr[6]; g_allocs_total += hdr[5]; g_alloc_failures_total += hdr[6];
     g_yields_total += hdr[1]; g_switches_total += hdr[2]; g_threads_total += hdr[3]; if (hdr[3] > g_threads_max) g_threads_max = hdr[3];
     }
@@ -766,7 +840,7 @@ static Outcome run_schedule(const Schedule & sc, bool scripted, uint64_t sched_s
   int st = 0; while (waitpid(pid, &st, 0) < 0 && errno == EINTR) {}
   // a child that could not even start its caller threads (exit code 3: the environment refused another thread) is a
   // resource limit of the machine, not a hang of the library: it is counted separately and never stops a worker
-  if (was_incomplete) { if (WIFEXITED(st) && WEXITSTATUS(st) == 3) ++g_resource_failures; else ++g_hung; }
+  if (was_incomplete) { if (WIFEXITED(st) && WEXITSTATUS(st) == 3) ++g_resource_failures; else if (WIFEXITED(st) && WEXITSTATUS(st) == 6) ++g_nest_deadlocks; else ++g_hung; }
   if (was_incomplete && getenv("HSIM_DEBUG")) fprintf(stderr, "incomplete child: wait status 0x%x (exited=%d code=%d signaled=%d sig=%d) items=%zu clients=%d\n", st, WIFEXITED(st), WIFEXITED(st) ? WEXITSTATUS(st) : -1, WIFSIGNALED(st), WIFSIGNALED(st) ? WTERMSIG(st) : 0, sc.items.size(), sc.clients);
   return o;
   }
@@ -874,7 +948,7 @@ static Schedule minimise(Schedule sc, int victim, const Res & iso)
   {
   // everything after the victim's segment cannot matter
   size_t vs = 0;
-  for (size_t s = 0; s < sc.segs.size(); ++s) for (int k : sc.segs[s].items) if (k == victim) vs = s;
+  for (size_t s = 0; s < sc.segs.size(); ++s) { for (int k : sc.segs[s].items) if (k == victim) vs = s; for (int k : sc.segs[s].nested) if (k == victim) vs = s; }
   sc.segs.resize(vs + 1);
   // ddmin over whole earlier segments
   {
@@ -926,6 +1000,14 @@ static Schedule minimise(Schedule sc, int victim, const Res & iso)
         if (ok) { sc = t; changed = true; } else ++k;
         }
     for (size_t s = 0; s < sc.segs.size(); ++s)
+      for (size_t k = 0; k < sc.segs[s].nested.size(); )
+        {   // drop a nested (signal-handler) call together with its delivery points
+        if (sc.segs[s].nested[k] == victim) { ++k; continue; }
+        Schedule t = sc; t.segs[s].nested.erase(t.segs[s].nested.begin() + static_cast<long>(k));
+        if (t.segs[s].nested.empty()) { std::vector<Switch> keep; for (const Switch & w : t.segs[s].script) if (w.to != SW_NEST) keep.push_back(w); t.segs[s].script = keep; }
+        if (fails(t, victim, iso, nullptr)) { sc = t; changed = true; } else ++k;
+        }
+    for (size_t s = 0; s < sc.segs.size(); ++s)
       for (size_t k = 0; k < sc.segs[s].respawn.size(); )
         {
         Schedule t = sc; t.segs[s].respawn.erase(t.segs[s].respawn.begin() + static_cast<long>(k));
@@ -950,6 +1032,7 @@ static std::string schedule_json(const Schedule & sc, int victim)
     {
     for (uint8_t c : g.respawn) if (!ren.count(c)) { int id = static_cast<int>(ren.size()); ren[c] = id; }
     for (int k : g.items) { int c = sc.items[k].client; if (!ren.count(c)) { int id = static_cast<int>(ren.size()); ren[c] = id; } }
+    if (!g.nested.empty() && g.nest_host >= 0 && !ren.count(g.nest_host)) { int id = static_cast<int>(ren.size()); ren[g.nest_host] = id; }
     }
   std::string s = "\"clients\":" + std::to_string(ren.size()) + ",\"segments\":[";
   int vseg = -1, vpos = -1, out_segs = 0; uint64_t pending_repeat = 1;
@@ -958,7 +1041,7 @@ static std::string schedule_json(const Schedule & sc, int victim)
     {
     const Segment & g = sc.segs[si];
     // run-length encode: a single-call segment identical to the previous one only bumps its "repeat"
-    if (si > 0 && g.items.size() == 1 && g.respawn.empty() && g.phase == sc.segs[si - 1].phase && sc.segs[si - 1].items.size() == 1 && g.items[0] != victim && sc.segs[si - 1].items[0] != victim)
+    if (si > 0 && g.items.size() == 1 && g.nested.empty() && sc.segs[si - 1].nested.empty() && g.respawn.empty() && g.phase == sc.segs[si - 1].phase && sc.segs[si - 1].items.size() == 1 && g.items[0] != victim && sc.segs[si - 1].items[0] != victim)
       {
       const Item & x = sc.items[g.items[0]]; const Item & y = sc.items[sc.segs[si - 1].items[0]];
       if (x.client == y.client && x.op == y.op && x.a == y.a && x.b == y.b && !x.fail_alloc && !y.fail_alloc) { ++pending_repeat; continue; }
@@ -974,14 +1057,21 @@ static std::string schedule_json(const Schedule & sc, int victim)
       if (g.items[k] == victim) { vseg = out_segs; vpos = static_cast<int>(k); }
       s += std::string(k ? "," : "") + "{\"client\":" + std::to_string(ren[it.client]) + ",\"op\":\"" + g_ops[it.op].name + "\",\"a\":\"" + hex(it.a) + "\",\"b\":\"" + hex(it.b) + "\"" + (it.fail_alloc > 0 ? ",\"fail_alloc\":" + std::to_string(it.fail_alloc) : std::string()) + "}";
       }
+    for (size_t k = 0; k < g.nested.size(); ++k)
+      {   // calls made from the simulated signal handler, on the interrupted caller's thread
+      const Item & it = sc.items[g.nested[k]];
+      if (g.nested[k] == victim) { vseg = out_segs; vpos = static_cast<int>(g.items.size() + k); }
+      s += std::string(",") + "{\"client\":" + std::to_string(ren[g.nest_host]) + ",\"nested\":true,\"op\":\"" + g_ops[it.op].name + "\",\"a\":\"" + hex(it.a) + "\",\"b\":\"" + hex(it.b) + "\"}";
+      }
     s += "],\"script\":[";
     bool first = true;
     for (const Switch & w : g.script)
       {
-      if (g.items.size() < 2) break;
-      if ((w.from != SW_START && !ren.count(w.from)) || !ren.count(w.to)) continue;
+      if (g.items.size() < 2 && w.to != SW_NEST) continue;
+      if (w.to == SW_NEST && g.nested.empty()) continue;
+      if ((w.from != SW_START && !ren.count(w.from)) || (w.to != SW_NEST && !ren.count(w.to))) continue;
       s += std::string(first ? "" : ",") + "{\"from\":" + std::to_string(w.from == SW_START ? 255 : ren[w.from]) + ",\"at_yield\":" +
-           (w.idx == SW_AT_END ? std::string("-1") : std::to_string(w.idx)) + ",\"to\":" + std::to_string(ren[w.to]) + "}";
+           (w.idx == SW_AT_END ? std::string("-1") : std::to_string(w.idx)) + ",\"to\":" + std::to_string(w.to == SW_NEST ? 254 : ren[w.to]) + "}";
       first = false;
       }
     s += "]";
@@ -991,8 +1081,8 @@ static std::string schedule_json(const Schedule & sc, int victim)
   return s;
   }
 
-static size_t count_calls(const Schedule & sc) { size_t n = 0; for (auto & g : sc.segs) n += g.items.size(); return n; }
-static size_t count_switches(const Schedule & sc) { size_t n = 0; for (auto & g : sc.segs) if (g.items.size() > 1) for (auto & w : g.script) if (w.from != SW_START && w.idx != SW_AT_END) ++n; return n; }
+static size_t count_calls(const Schedule & sc) { size_t n = 0; for (auto & g : sc.segs) n += g.items.size() + g.nested.size(); return n; }
+static size_t count_switches(const Schedule & sc) { size_t n = 0; for (auto & g : sc.segs) for (auto & w : g.script) if ((g.items.size() > 1 || w.to == SW_NEST) && w.from != SW_START && w.idx != SW_AT_END) ++n; return n; }
 
 // confirm, minimise and print one finding; returns true if it was stable
 static bool report(uint64_t seed, const char * mode, Schedule sc, int victim, const Res & iso)
@@ -1026,7 +1116,7 @@ struct Stats
   uint64_t long_runs = 0, very_long_runs = 0, churn_runs = 0, respawns = 0, max_plan_len = 0;
   uint64_t alias_same[AL_N] = {0}, alias_cross[AL_N] = {0};
   uint64_t calls = 0, runs = 0, nontrivial = 0, iso_checks = 0, disagreements = 0, signals_seen = 0, lost = 0, findings = 0, unstable = 0;
-  uint64_t plain_conflict_pairs = 0;
+  uint64_t plain_conflict_pairs = 0, same_caller_pairs = 0, nest_directed_execs = 0;
   uint64_t access_records = 0, nonstack_writes = 0, conflict_pairs = 0, plans_with_conflicts = 0, directed_execs = 0;
   uint64_t fine_execs = 0, concurrent_segments = 0, concurrent_calls = 0, preemptions = 0, distinct_traces = 0;
   uint64_t digest = 0;
@@ -1091,7 +1181,8 @@ static void print_stats(const Stats & st, const char * mode, uint64_t seed0)
                   ",\"distinct_decision_traces\":" + std::to_string(st.traces.size()) +
                   ",\"access_records\":" + std::to_string(st.access_records) + ",\"nonstack_writes_observed\":" + std::to_string(st.nonstack_writes) +
                   ",\"conflicting_call_pairs\":" + std::to_string(st.conflict_pairs) + ",\"conflicting_call_pairs_plain_access\":" + std::to_string(st.plain_conflict_pairs) + ",\"plans_with_conflicts\":" + std::to_string(st.plans_with_conflicts) +
-                  ",\"directed_executions\":" + std::to_string(st.directed_execs) +
+                  ",\"directed_executions\":" + std::to_string(st.directed_execs) + ",\"nested_calls_delivered\":" + std::to_string(g_nests_total) + ",\"nest_directed_executions\":" + std::to_string(st.nest_directed_execs) +
+                  ",\"same_caller_conflict_pairs\":" + std::to_string(st.same_caller_pairs) + ",\"handler_self_deadlocks\":" + std::to_string(g_nest_deadlocks) +
                   ",\"long_runs\":" + std::to_string(st.long_runs) + ",\"very_long_runs\":" + std::to_string(st.very_long_runs) + ",\"max_plan_len\":" + std::to_string(st.max_plan_len) +
                   ",\"lifecycle_probes\":" + std::to_string(g_lc_probes) + ",\"early_calls\":" + std::to_string(g_lc_early) + ",\"late_calls\":" + std::to_string(g_lc_late) +
                   ",\"clock_queries_inside_library_calls\":" + std::to_string(g_clock_queries_total) + ",\"simulated_ns\":" + std::to_string(g_sim_ns_total) +
@@ -1215,7 +1306,7 @@ static int do_scan_serial(uint64_t seed0, uint64_t count, const char * hashfile,
 
 // calls i < j of different callers conflict when one writes a non-stack address the other reads or writes
 struct Conflict { int i, j; std::vector<uint64_t> addrs; };
-static std::vector<Conflict> find_conflicts(const Plan & p, const std::vector<AccessRec> & acc, uint64_t & writes_seen, uint64_t & plain_pairs)
+static std::vector<Conflict> find_conflicts(const Plan & p, const std::vector<AccessRec> & acc, uint64_t & writes_seen, uint64_t & plain_pairs, std::vector<Conflict> & same_caller)
   {
   struct Touch { int item; bool wrote; bool atomic; };
   std::map<uint64_t, std::vector<Touch>> by_addr;
@@ -1223,7 +1314,7 @@ static std::vector<Conflict> find_conflicts(const Plan & p, const std::vector<Ac
   for (const AccessRec & a : acc) { by_addr[a.addr].push_back(Touch{static_cast<int>(a.item), (a.is_write & 1) != 0, (a.is_write & 2) != 0}); if (a.is_write & 1) ++writes_seen; }
   // pairs whose conflict involves a plain (non-atomic) access come first: an atomic counter bumped by every caller is a
   // conflict too, but rarely the interesting one
-  std::map<std::pair<int, int>, std::vector<uint64_t>> plain, atomic_only;
+  std::map<std::pair<int, int>, std::vector<uint64_t>> plain, atomic_only, own;      // own: two different questions of ONE caller (re-entrancy targets, DESIGN 9.8)
   for (auto & kv : by_addr)
     {
     auto & v = kv.second;
@@ -1234,12 +1325,19 @@ static std::vector<Conflict> find_conflicts(const Plan & p, const std::vector<Ac
     // in play without enumerating a quadratic number of pairs.
     for (size_t x = 0; x < v.size(); ++x)
       {
-      int taken = 0;
+      int taken = 0, taken_own = 0;
       for (size_t y = x + 1; y < v.size() && y < x + 40 && taken < 4; ++y)
         {
         if (!(v[x].wrote || v[y].wrote)) continue;
         int i = std::min(v[x].item, v[y].item), j = std::max(v[x].item, v[y].item);
-        if (i == j || i < 0 || j >= static_cast<int>(p.items.size()) || p.items[i].client == p.items[j].client) continue;
+        if (i == j || i < 0 || j >= static_cast<int>(p.items.size())) continue;
+        if (p.items[i].client == p.items[j].client)
+          {
+          const Item & xi = p.items[i]; const Item & xj = p.items[j];
+          if (taken_own < 2 && (xi.op != xj.op || xi.a != xj.a || xi.b != xj.b) && (own.size() < 2000 || own.count({i, j})))
+            { ++taken_own; auto & ad = own[{i, j}]; if (ad.size() < 8) ad.push_back(kv.first); }
+          continue;
+          }
         ++taken;
         auto & tab = (v[x].atomic && v[y].atomic) ? atomic_only : plain;
         if (tab.size() > 6000 && !tab.count({i, j})) continue;
@@ -1249,6 +1347,7 @@ static std::vector<Conflict> find_conflicts(const Plan & p, const std::vector<Ac
       }
     }
   std::vector<Conflict> out;
+  same_caller.clear();
   // a pair is worth running together only if both calls would still be made by the threads that made them in the
   // reference execution: no restart of either caller between the two positions
   auto same_threads = [&](const std::pair<int, int> & k)
@@ -1266,6 +1365,7 @@ static std::vector<Conflict> find_conflicts(const Plan & p, const std::vector<Ac
   for (auto & kv : plain) if (!differ(kv.first)) out.push_back(Conflict{kv.first.first, kv.first.second, kv.second});
   plain_pairs = differing ? differing : out.size();
   for (auto & kv : atomic_only) if (!plain.count(kv.first)) out.push_back(Conflict{kv.first.first, kv.first.second, kv.second});
+  for (auto & kv : own) if (same_threads(kv.first)) same_caller.push_back(Conflict{kv.first.first, kv.first.second, kv.second});
   return out;
   }
 
@@ -1356,6 +1456,36 @@ static Schedule inplace_schedule(const Plan & p, const Conflict & c, uint64_t ss
   return s;
   }
 
+// the plan unchanged, except that the later call of a conflicting pair is interrupted - at the addresses the two conflict
+// on - by a simulated signal whose handler asks the earlier question on the interrupted thread; then echo probes
+static Schedule nest_schedule(const Plan & p, const Conflict & c, uint64_t sseed)
+  {
+  Rng r(sseed ^ 0xa54ff53a5f1d36f1ull);
+  Schedule s; s.clients = p.clients; s.items = p.items;
+  bool swap = r.chance(35);                                  // sometimes the earlier call hosts and the later question interrupts
+  int host = swap ? c.i : c.j, inner = swap ? c.j : c.i;
+  for (size_t k = 0; k < p.items.size(); ++k)
+    {
+    Segment g; g.den = 16; g.budget = 0; g.items = {static_cast<int>(k)};
+    for (auto & e : p.respawn) if (e.first == k) g.respawn.push_back(e.second);
+    if (static_cast<int>(k) == host)
+      {
+      s.items.push_back(p.items[inner]); s.items.back().client = p.items[host].client; s.items.back().fail_alloc = 0;
+      g.nested.push_back(static_cast<int>(s.items.size() - 1)); g.nest_host = p.items[host].client; g.focus = c.addrs;
+      g.nest_den = r.chance(50) ? 0 : 8;                     // 0: only at the conflicting addresses
+      }
+    s.segs.push_back(g);
+    if (static_cast<int>(k) == host)
+      for (int q = 0; q < 2; ++q)
+        {   // echo probes on the interrupted thread: its own question, then the handler's
+        s.items.push_back(p.items[q == 0 ? host : inner]); s.items.back().client = p.items[host].client; s.items.back().fail_alloc = 0;
+        Segment e; e.den = 0; e.budget = 0; e.items = {static_cast<int>(s.items.size() - 1)};
+        s.segs.push_back(e);
+        }
+    }
+  return s;
+  }
+
 // fine mode: whole-call reference execution vs executions with concurrent segments and seeded preemption
 static int do_scan_fine(uint64_t seed0, uint64_t count, const char * hashfile, uint64_t max_findings)
   {
@@ -1373,7 +1503,8 @@ static int do_scan_fine(uint64_t seed0, uint64_t count, const char * hashfile, u
     Outcome oref = run_schedule(ref, true, 0);
     std::vector<Res> ra = oref.res;
     uint64_t writes_seen = 0, plain_pairs = 0;
-    std::vector<Conflict> conflicts = find_conflicts(p, oref.access, writes_seen, plain_pairs);
+    std::vector<Conflict> same_caller;
+    std::vector<Conflict> conflicts = find_conflicts(p, oref.access, writes_seen, plain_pairs, same_caller);
     st.plain_conflict_pairs += plain_pairs;
     if (getenv("HSIM_DEBUG") && plain_pairs)
       {
@@ -1389,13 +1520,23 @@ static int do_scan_fine(uint64_t seed0, uint64_t count, const char * hashfile, u
     if (!conflicts.empty()) ++st.plans_with_conflicts;
     int directed = conflicts.empty() ? 0 : static_cast<int>(std::min<size_t>(plain_pairs ? 9 : 2, conflicts.size()));
     if (getenv("HSIM_DIRECTED") && plain_pairs) directed = atoi(getenv("HSIM_DIRECTED"));
-    account_plan(st, p, ra, seed, 1 + variants + directed);
+    int nestn = (conflicts.empty() && same_caller.empty()) ? 0 : 3;
+    st.same_caller_pairs += same_caller.size();
+    account_plan(st, p, ra, seed, 1 + variants + directed + nestn);
     bool found = false;
-    for (int v = 0; v < variants + directed && !found; ++v)
+    for (int v = 0; v < variants + directed + nestn && !found; ++v)
       {
       uint64_t sseed = mix64(seed, 0x1000 + static_cast<uint64_t>(v));
       Schedule sc;
       if (v < variants) sc = fine_schedule(p, sseed);
+      else if (v >= variants + directed)
+        {   // re-entrancy aimed at state two calls really share: one caller's own two questions first, else a cross-caller pair
+        Rng pick(sseed);
+        bool own = !same_caller.empty() && (conflicts.empty() || (v - variants - directed) != 1);
+        const std::vector<Conflict> & pool = own ? same_caller : conflicts;
+        size_t lim = own ? pool.size() : (plain_pairs ? static_cast<size_t>(plain_pairs) : pool.size());
+        sc = nest_schedule(p, pool[pick.below(lim)], sseed); ++st.directed_execs; ++st.nest_directed_execs;
+        }
       else
         {   // plain conflicts are listed first; take from them while there are any
         Rng pick(sseed);
@@ -1415,11 +1556,11 @@ static int do_scan_fine(uint64_t seed0, uint64_t count, const char * hashfile, u
         }
       if (!oc.complete) continue;
       uint64_t th = mix64(p.hash, 0x77);
-      for (const TraceRec & t : oc.trace) { th = mix64(th, (static_cast<uint64_t>(t.seg) << 40) ^ (static_cast<uint64_t>(t.from) << 32) ^ t.idx); th = mix64(th, t.to); if (t.from != SW_START && t.idx != SW_AT_END) ++st.preemptions; }
+      for (const TraceRec & t : oc.trace) { th = mix64(th, (static_cast<uint64_t>(t.seg) << 40) ^ (static_cast<uint64_t>(t.from) << 32) ^ t.idx); th = mix64(th, t.to); if (t.to == SW_NEST) continue; if (t.from != SW_START && t.idx != SW_AT_END) ++st.preemptions; }
       for (const Segment & g : sc.segs) if (g.items.size() > 1) { ++st.concurrent_segments; st.concurrent_calls += g.items.size(); th = mix64(th, g.items.size() * 131u + static_cast<uint64_t>(g.items[0])); }
       { uint64_t dd = th; for (size_t i = 0; i < n; ++i) { dd = mix64(dd, oc.res[i].status); dd = mix64(dd, oc.res[i].bits); } st.digest += dd; }
       bool has_conc = false;
-      for (const Segment & g : sc.segs) if (g.items.size() > 1) has_conc = true;
+      for (const Segment & g : sc.segs) if (g.items.size() > 1 || !g.nested.empty()) has_conc = true;
       if (has_conc) { st.traces.insert(th); if (hf) fwrite(&th, 8, 1, hf); }
       for (size_t i = 0; i < oc.res.size() && !found; ++i)
         {
@@ -1473,6 +1614,14 @@ static int do_exec()
       sc.items.push_back(it); sc.segs.back().items.push_back(static_cast<int>(sc.items.size() - 1));
       continue;
       }
+    if (sscanf(line, "nest %u %255s %llx %llx", &c, name, &a, &b) == 4)
+      {
+      int oi = op_index(name);
+      if (oi < 0 || sc.segs.empty()) { fprintf(stderr, "hsim: bad nested call\n"); return 2; }
+      Item it{}; it.client = static_cast<uint8_t>(c); it.op = static_cast<uint16_t>(oi); it.a = a; it.b = b; it.alias_of = -1;
+      sc.items.push_back(it); sc.segs.back().nested.push_back(static_cast<int>(sc.items.size() - 1)); sc.segs.back().nest_host = static_cast<int>(c);
+      continue;
+      }
     if (sscanf(line, "sw %u %lld %u", &f, &idx, &t) == 3)
       {
       if (sc.segs.empty()) return 2;
@@ -1495,6 +1644,8 @@ static int do_exec()
       if (sc.items[g.items[i]].client == sc.items[g.items[j]].client) { fprintf(stderr, "hsim: one client twice in a segment\n"); return 2; }
   int victim = -1;
   if (vseg >= 0 && vseg < static_cast<int>(sc.segs.size()) && vcall >= 0 && vcall < static_cast<int>(sc.segs[vseg].items.size())) victim = sc.segs[vseg].items[vcall];
+  else if (vseg >= 0 && vseg < static_cast<int>(sc.segs.size()) && vcall >= static_cast<int>(sc.segs[vseg].items.size()) && vcall < static_cast<int>(sc.segs[vseg].items.size() + sc.segs[vseg].nested.size()))
+    victim = sc.segs[vseg].nested[static_cast<size_t>(vcall) - sc.segs[vseg].items.size()];
   if (victim < 0) victim = static_cast<int>(sc.items.size()) - 1;
   Outcome o = is_lifecycle(sc) ? run_lifecycle(sc) : run_schedule(sc, true, 0);
   bool faulted = false;
